@@ -25,9 +25,13 @@ pub struct SrvOpts {
     /// slow log, MONITOR support and statistics switched on in the configuration (another implementation of the
     /// per-command bookkeeping is used then)
     pub monitoring: bool,
+    /// n > 1: every connection's id is the previous one's plus n (16 puts all connections into the same shard of the
+    /// server's connection table; ids handed out one after the other never share one)
+    pub conn_stride: u64,
 }
 
 pub struct Srv {
+    pub conn_stride: u64,
     pub h: VerifHandles,
     pub gate: Arc<Gate>,
     thread: Option<std::thread::JoinHandle<()>>,
@@ -120,7 +124,7 @@ impl Srv {
             })
             .expect("spawn loop thread");
         // wait for the loop thread to reach the top of its loop the first time
-        let srv = Srv { h, gate, thread: Some(thread), dir, addr };
+        let srv = Srv { conn_stride: opts.conn_stride, h, gate, thread: Some(thread), dir, addr };
         srv.gate.wait_at_top();
         if expected_sleepers > 0 {
             // the engine's sweeper (and the auto-save monitor) must have entered their first sleep
@@ -166,6 +170,9 @@ impl Srv {
     /// Open a client connection and step until the server has accepted it; returns the client with its id.
     pub fn connect(&self) -> Result<Client, CallErr> {
         let before: Vec<u64> = (self.h.connections)().iter().map(|r| r.id).collect();
+        if self.conn_stride > 1 {
+            ferrous::network::server::verif_skip_conn_ids(self.conn_stride - 1);
+        }
         let stream = TcpStream::connect(self.addr).map_err(|e| CallErr::Garbage(format!("connect: {}", e)))?;
         stream.set_nonblocking(true).unwrap();
         stream.set_nodelay(true).unwrap();
@@ -177,6 +184,9 @@ impl Srv {
             }
             let after = (self.h.connections)();
             if let Some(r) = after.iter().find(|r| !before.contains(&r.id)) {
+                if self.conn_stride > 1 && before.iter().any(|b| b % self.conn_stride != r.id % self.conn_stride) {
+                    return Err(CallErr::Garbage(format!("machinery: connection id {} is not congruent to {:?} modulo {}", r.id, before, self.conn_stride)));
+                }
                 return Ok(Client { stream: Some(stream), buf: Vec::new(), id: r.id, closed: false });
             }
         }
